@@ -284,7 +284,14 @@ func (c *Ctx) Violate(v Violation) {
 func (c *Ctx) Result(complete bool) Result {
 	c.mu.Lock()
 	defer c.mu.Unlock()
-	r := Result{Prop: c.Prop, Shard: c.Shard, Counts: c.counts, Maxes: c.maxes, Distinct: map[string][]uint64{}, Samples: c.samples, Violations: c.viols, Notes: c.notes, Complete: complete}
+	r := Result{Prop: c.Prop, Shard: c.Shard, Counts: map[string]int64{}, Maxes: map[string]int64{}, Distinct: map[string][]uint64{},
+		Samples: append([]any(nil), c.samples...), Violations: append([]Violation(nil), c.viols...), Notes: append([]string(nil), c.notes...), Complete: complete}
+	for k, v := range c.counts {
+		r.Counts[k] = v
+	}
+	for k, v := range c.maxes {
+		r.Maxes[k] = v
+	}
 	for k, m := range c.distinct {
 		l := make([]uint64, 0, len(m))
 		for h := range m {
@@ -342,21 +349,21 @@ func GoroutineDump() string {
 
 // Property is the registration record of one check.
 type Property struct {
-	ID        string
-	Race      bool // build and run the workers with -race
-	Shards    func(tier string) int
-	Run       func(c *Ctx)
-	Finish    func(m *Merged) // driver side: floors, derived evidence (may add violations / inconclusive)
-	Rule      string
-	Level     string // evidence level
-	Assume    []string
-	TimeoutS  func(tier string) int // per worker wall watchdog
-	NonTrivial string              // name of the distinct set that is reported as distinct_nontrivial
+	ID         string
+	Race       bool // build and run the workers with -race
+	Shards     func(tier string) int
+	Run        func(c *Ctx)
+	Finish     func(m *Merged) // driver side: floors, derived evidence (may add violations / inconclusive)
+	Rule       string
+	Level      string // evidence level
+	Assume     []string
+	TimeoutS   func(tier string) int // per worker wall watchdog
+	NonTrivial string                // name of the distinct set that is reported as distinct_nontrivial
 }
 
 var registry = map[string]*Property{}
 
-func Register(p *Property) { registry[p.ID] = p }
+func Register(p *Property)       { registry[p.ID] = p }
 func Lookup(id string) *Property { return registry[id] }
 func All() []string {
 	var l []string
